@@ -255,7 +255,8 @@ def gen_elements(ctx, n):
             s = tmpl(x, "xml")
         else:
             s = tmpl("<xsl:for-each select='//a'>" + x + "</xsl:for-each>", "xml")
-        out.append(Case(r.choice("TTTCA"), s, cls="element:" + el))
+        legal_text = all(a in ("disable-output-escaping", "xml:space") for a, _ in attrs)
+        out.append(Case(r.choice("TTTCA"), s, cls="element:" + el, known=("K-new-4" if el == "text" and not legal_text else None)))
     return out
 
 
@@ -376,7 +377,7 @@ def gen_mutations(ctx, n):
         out.append(Case(r.choice("XQT"), vo(x), X=x, D="<a/>", cls="tokenizer:truncated-token"))
     for p in PARAMS:
         s = sheet("<xsl:param name='p' select='1'/><xsl:template match='/'><xsl:value-of select='$p'/><xsl:copy-of select='$p'/></xsl:template>", "xml")
-        out.append(Case(r.choice("TA"), s, P={"p": p}, cls="param:expression"))
+        out.append(Case(r.choice("TA"), s, P={"p": p}, cls="param:expression", known=("K-new-3" if "$" in p else None)))
         out.append(Case("T", s, P={p[:40] or "q": "1"}, cls="param:name"))
     return out
 
@@ -508,6 +509,8 @@ def corpus_cases():
         "K9": Case("T", tmpl("<xsl:number value='1" + "0" * 30 + "'/>"), cls="corpus:K9", expect=("count", 10 ** 30)),
         "K-new-1": Case("T", vo("math:constant('PI', 50)"), cls="corpus:K-new-1"),
         "K-new-2": Case("T", vo("str:padding(-1)"), cls="corpus:K-new-2"),
+        "K-new-3": Case("T", sheet("<xsl:param name='p' select='1'/><xsl:template match='/'><xsl:value-of select='$p'/></xsl:template>"), P={"p": "$q"}, cls="corpus:K-new-3"),
+        "K-new-4": Case("T", tmpl("<xsl:text bogus='1'></xsl:text>", "xml"), cls="corpus:K-new-4"),
     }
 
 
@@ -606,7 +609,7 @@ def replay_known(ctx, plain, asan):
     f = r.get("K9")
     j = judge(cs["K9"], f) if f else ("crash", s)
     obs["K9"] = j[1] if j else None
-    for k in ("K-new-1", "K-new-2"):
+    for k in ("K-new-1", "K-new-2", "K-new-3", "K-new-4"):
         r, s, _, e = run_proc(asan, [cs[k].line()], 60)
         obs[k] = None if (s == "ok" and k in r) else "%s %s" % (s, report_of(e))
     return obs
@@ -626,7 +629,7 @@ def run(ctx):
         if not ok_lib:
             ctx.broken.append("library (%s) does not build from the working tree: %s" % (v, liblog[-500:]))
             return ctx.finish(LEVEL)
-    proved = ctx.prove(["Properties_C03.v"], ["GenSafe", "GenNum", "GenNum7"])
+    proved = ctx.prove(["Properties_C03.v"], ["GenSafe", "GenNum"])
     try:
         import srcfacts
         ctx.notes["safe_facts"] = {k: v for k, v in srcfacts.GENERATORS["GenSafe"]()[1].items() if k != "cast_list"}
@@ -676,6 +679,9 @@ def run(ctx):
         else:
             new.append(f)
     ctx.notes["known_class_hits"] = reported
+    for k in sorted(reported):
+        if not any(w.startswith(k + " ") for w in ctx.known_lines):
+            ctx.known_finding("%s %s" % (k, known[k]["what"]))
     seen_kinds = {}
     for kind, c, text, replay, _ in new:
         key = (kind, re.sub(r"0x[0-9a-f]+|\d+", "#", text)[:160])
